@@ -430,6 +430,80 @@ static void one_case(json_object *doc, json_object *patch, int mode)
 		json_object_put(base);
 }
 
+/* the same application while the k-th allocation request made by json_patch_apply fails (k = 0, 1, ... until the call no
+ * longer reaches request k): it completes as usual or reports failure; either way the patch (and, copying, the source
+ * document) is what it was, whatever *base holds can be released, and nothing stays allocated */
+/* (the typed dump serializes every double node by itself, which leaves a print buffer attached to that node: do it once
+ * beforehand so that the dumps inside the accounting window allocate nothing on the long-lived documents) */
+static void warm(json_object *o)
+{
+	if (!o)
+		return;
+	if (json_object_get_type(o) == json_type_double)
+		(void)json_object_to_json_string_ext(o, JSON_C_TO_STRING_PLAIN);
+	else if (json_object_get_type(o) == json_type_array)
+		for (size_t i = 0; i < json_object_array_length(o); i++)
+			warm(json_object_array_get_idx(o, i));
+	else if (json_object_get_type(o) == json_type_object)
+	{
+		json_object_object_foreach(o, k, v)
+		{
+			(void)k;
+			warm(v);
+		}
+	}
+}
+static void faulted_cases(json_object *doc, json_object *patch, int mode)
+{
+	warm(doc);
+	warm(patch);
+	for (long k = 0; k < 24; k++)
+	{
+		long live0 = vh_live;
+		json_object *base = NULL, *priv = NULL;
+		struct json_patch_error pe;
+		memset(&pe, 0, sizeof pe);
+		if (mode == 1)
+			json_object_deep_copy(doc, &priv, NULL);
+		int rc;
+		vh_alloc_arm(k);
+		if (mode == 0)
+			rc = json_patch_apply(doc, patch, &base, &pe);
+		else
+		{
+			base = priv;
+			rc = json_patch_apply(NULL, patch, &base, &pe);
+		}
+		int hit = vh_nalloc > k;
+		const char *site = vh_fail_site;
+		vh_alloc_disarm();
+		if (hit)
+		{
+			ev_begin("fpatch");
+			ev_int("mode", mode);
+			ev_int("k", k);
+			ev_str("site", site ? site : "");
+			dump_value("doc", doc);
+			dump_value("patch", patch);
+			ev_int("ret", rc);
+			if (rc == 0)
+				dump_value("result", base);
+			else
+				dump_none("result");
+			dump_value("patch_after", patch);
+			dump_value("doc_after", doc);
+		}
+		if (base)
+			json_object_put(base);
+		if (hit)
+		{
+			ev_int("leak", (int)(vh_live - live0));
+			ev_end();
+		}
+		else
+			break;
+	}
+}
 static int drive(int start, int nexec)
 {
 	const char *seed = getenv("VERIF_SEED");
@@ -455,6 +529,8 @@ static int drive(int start, int nexec)
 		{
 			json_object *patch = (k < 4) ? gen_patch(doc, 1 + (int)vh_below(k < 2 ? 2 : 8)) : gen_bad_patch(doc);
 			one_case(doc, patch, (int)vh_below(2));
+			if (vh_below(4) == 0)
+				faulted_cases(doc, patch, (int)vh_below(2));
 			json_object_put(patch);
 		}
 		json_object_put(doc);
